@@ -239,7 +239,7 @@ impl Scenario for C14 {
     const ID: &'static str = "C14";
     const LEVEL: &'static str = "fault_enumeration";
     fn runs(tier: Tier) -> u64 {
-        tier.pick(640, 8_192)
+        tier.pick(6_400, 8_192)
     }
     fn profiles() -> &'static [Profile] {
         &[Profile::Release]
@@ -270,9 +270,13 @@ impl Scenario for C14 {
                     }
                 }
                 let per = (near.len() + 639) / 640;
-                let start = (ctx.run as usize % 640) * per;
-                let mut v: Vec<u16> = near.iter().copied().skip(start).take(per).collect();
-                for _ in 0..4 {
+                let mut v: Vec<u16> = if ctx.run < 640 {
+                    let start = ctx.run as usize * per;
+                    near.iter().copied().skip(start).take(per).collect()
+                } else {
+                    Vec::new()
+                };
+                for _ in 0..6 {
                     v.push(rng.u16());
                 }
                 v
